@@ -55,6 +55,12 @@ func mkCase(rp Replay) (*Case, error) {
 			return nil, err
 		}
 		return &Case{Coq: o.coq, Replay: rp, NonTrivial: o.nontriv, Oracle: o.viol, Stream: "e2e", Tags: o.tags}, nil
+	case rp.E2E != nil && rp.E2E.Kind == "pos":
+		o, err := runPos(*rp.E2E)
+		if err != nil {
+			return nil, err
+		}
+		return &Case{Coq: o.coq, Replay: rp, NonTrivial: o.nontriv, Oracle: o.viol, Stream: "pos", Tags: o.tags}, nil
 	case rp.E2E != nil && rp.E2E.Kind == "conc":
 		o, err := runConc(*rp.E2E)
 		if err != nil {
@@ -91,6 +97,9 @@ func genBatchAE(r *Rng, n int, budget *int) []AE {
 func genE2E(r *Rng) E2EReplay {
 	rp := E2EReplay{Kind: "e2e", MaxRec: 4096}
 	rp.MaxChunk = int64(r.PickInt(40, 60, 100, 150, 300, 300, 1000, 4000, 65536))
+	if r.Chance(1, 10) {
+		rp.MaxRec = int64(r.PickInt(40, 64, 100)) // some records will exceed it
+	}
 	nparts := r.Range(1, 3)
 	budget := 1800
 	nreq := r.Range(1, 7)
@@ -135,6 +144,33 @@ func genE2E(r *Rng) E2EReplay {
 			}
 			rp.Reqs = append(rp.Reqs, Req{Kind: "raw", Body: body})
 		}
+	}
+	return rp
+}
+
+// direct writes to 1-2 partitions of the storage-only server; the write events are observed
+func genPos(r *Rng) E2EReplay {
+	rp := E2EReplay{Kind: "pos", MaxRec: 4096, MaxChunk: int64(r.PickInt(40, 60, 100, 150, 300, 1000))}
+	nparts := r.Range(1, 2)
+	budget := 1500
+	nreq := r.Range(2, 7)
+	for i := 0; i < nreq && budget > 0; i++ {
+		p := partPool[r.Intn(nparts)]
+		tags := p[r.Intn(len(p))]
+		if r.Chance(1, 15) {
+			tags = badTags[r.Intn(len(badTags))]
+		}
+		n := r.PickInt(0, 1, 1, 2, 3, 5, 8, 13)
+		var les []LE
+		for k := 0; k < n; k++ {
+			e := genLE(r, false)
+			if len(e.Msg) > 60 {
+				e.Msg = e.Msg[:12]
+			}
+			budget -= len(e.Msg) + len(e.Flds) + 20
+			les = append(les, e)
+		}
+		rp.Reqs = append(rp.Reqs, Req{Kind: "dir", Tags: tags, Les: les})
 	}
 	return rp
 }
@@ -482,6 +518,10 @@ func main() {
 		}
 		for i := 0; i < c.N(14); i++ {
 			e := genConc(r.Fork())
+			jobs = append(jobs, Replay{E2E: &e})
+		}
+		for i := 0; i < c.N(40); i++ {
+			e := genPos(r.Fork())
 			jobs = append(jobs, Replay{E2E: &e})
 		}
 		res := make([]*Case, len(jobs))
